@@ -224,9 +224,14 @@ def repr_case(fggs, rng, sname, dt, viols, obs, ctx):
     else:
         pool = [-math.inf, -math.inf, -2.0, -0.5, 0.0, 1.0, 3.0, math.inf]
         dpool = [-math.inf, -math.inf, 0.0, -1.5, math.inf]
-    ts = TP.common_types(rng, depth=2, max_numel=8, max_total=200)
-    p1 = TP.gen_pattern(rng, ts, lambda: rng.choice(pool), rng.choice(dpool))
-    p2 = TP.gen_pattern(rng, ts, lambda: rng.choice(pool), rng.choice(dpool))
+    if rng.random() < 0.2:
+        # zero-size summands give well-typed pairs that agree on `before` and differ on `after`
+        ts, p1, p2 = TP.gen_pattern_pair_same_before(rng, lambda: rng.choice(pool), lambda: rng.choice(dpool))
+        obs['repr_same_before_differs_after'] = obs.get('repr_same_before_differs_after', 0) + int(TP.same_before_differs_after(p1, p2))
+    else:
+        ts = TP.common_types(rng, depth=2, max_numel=8, max_total=200)
+        p1 = TP.gen_pattern(rng, ts, lambda: rng.choice(pool), rng.choice(dpool))
+        p2 = TP.gen_pattern(rng, ts, lambda: rng.choice(pool), rng.choice(dpool))
     t1 = TP.realise(I, p1, dtype)
     t2, shared = TP.realise_sharing(I, rng, p2, dtype, t1)
     obs['repr_shared_axes'] = obs.get('repr_shared_axes', 0) + int(shared)
